@@ -101,7 +101,18 @@ def check_field(rep, facts, cfgname, f, backend_filter=None):
         fec("QUADRATIC_NON_RESIDUE", lambda v, raw: K.legendre(v, p) == -1, "a quadratic non-residue")
         # multiplicative generator: generator of F_p^*.  Decided for the part of the factorisation of p-1 in reach
         small, cof = K.small_prime_factors(p - 1)
+        full = None
+        if f == "fq":
+            # q - 1 = x^4 - x^2 = x^2 (x-1)(x+1): a complete factorisation is in reach (three 64-bit numbers)
+            x_ = K.X_BLS
+            parts = [K.factorize(x_), K.factorize(x_ - 1), K.factorize(x_ + 1)]
+            if all(pp is not None for pp in parts) and (x_ * x_ * (x_ - 1) * (x_ + 1)) == p - 1:
+                full = sorted(set(sum(parts, [])))
         def is_gen(v, raw):
+            if full is not None:
+                return v != 0 and all(pow(v, (p - 1) // l, p) != 1 for l in full)
+            return is_gen_partial(v, raw)
+        def is_gen_partial(v, raw):
             if v == 0:
                 return False
             for l in small:
@@ -111,6 +122,7 @@ def check_field(rep, facts, cfgname, f, backend_filter=None):
                 return False
             return True
         g = fec("MULTIPLICATIVE_GENERATOR", is_gen,
+                ("a generator of the multiplicative group: g^((p-1)/l) != 1 for EVERY prime l | p-1 (complete factorisation via p-1 = x^2(x-1)(x+1): %s)" % full) if full is not None else
                 "g^((p-1)/l) != 1 for every prime l | p-1 found by trial division below 2^20 (%s)%s" % (
                     small, " and for the prime cofactor" if cof != 1 and K.is_prime(cof) else ""))
         if g is not None:
